@@ -46,6 +46,8 @@ FLOWS = {
     "pure_xz": _mat([[1, 0, 0], [0, 0, 0], [0, 0, -1]]),
     "axi_c": _mat([[0.5, 0, 0], [0, 0.5, 0], [0, 0, -1]]),
     "axi_e": _mat([[-0.5, 0, 0], [0, -0.5, 0], [0, 0, 1]]),
+    "axi_cy": _mat([[0.5, 0, 0], [0, -1, 0], [0, 0, 0.5]]),    # diagonal, extreme principal rate on y
+    "axi_ex": _mat([[1, 0, 0], [0, -0.5, 0], [0, 0, -0.5]]),   # diagonal, extreme principal rate on x
     "gen3d": _unit_rate(_mat([[0.3, 0.9, -0.4], [-0.2, -0.5, 0.7], [0.6, 0.1, 0.2]])),
     "trace": _unit_rate(_mat([[0.8, 0.5, 0.0], [-0.3, 0.1, 0.4], [0.2, -0.6, -0.3]])),
     "rot": _mat([[0, -1, 0], [1, 0, 0], [0, 0, 0]]),  # pure vorticity: zero strain rate
